@@ -93,6 +93,14 @@ def gen_sweep(planet, fn, variant, seed, eras, per_era, edge):
             ev["y"] = int(y)
         except Exception:
             ev["y"] = -99999
+        # "whatever was called in between": the sibling finders of the same planet are queried at the same epoch first
+        # (the other variant of a two-variant finder; the node finder before the apsis finder and vice versa)
+        if variant >= 0:
+            for (ofn, ov) in ((fn, 1 - variant), ("passage_nodes" if fn == "perihelion_aphelion" else "perihelion_aphelion", variant)):
+                try:
+                    _call(planet, ofn, ov, q)
+                except Exception:
+                    pass
         try:
             r = _call(planet, fn, variant, q)
             extra = 0.0
